@@ -48,6 +48,48 @@ def monotone(t, lo, hi):
         return False
     return False
 
+def ubound(t, lo, hi):
+    """an upper bound of the (unsigned) value of t on [lo, hi]"""
+    k = t[0]
+    if k == "x": return hi
+    if k == "c": return t[1]
+    if k in ("or2", "add2"):
+        a, b = ubound(t[1], lo, hi), ubound(t[2], lo, hi)
+        if k == "or2": return (1 << max(a, b).bit_length()) - 1
+        return min(a + b, (1 << t[3]) - 1) if a + b >= (1 << t[3]) else a + b
+    if monotone(t, lo, hi): return ev(t, hi)
+    a = ubound(t[1], lo, hi)
+    if k == "sub": return a if (monotone(t[1], lo, hi) and ev(t[1], lo) >= t[2]) else (1 << t[3]) - 1
+    if k == "add": return a + t[2] if a + t[2] < (1 << t[3]) else (1 << t[3]) - 1
+    if k == "mulc": return a * t[2] if a * t[2] < (1 << t[3]) else (1 << t[3]) - 1
+    if k == "shr": return a >> t[2]
+    if k == "shl": return (a << t[2]) if (a << t[2]) < (1 << t[3]) else (1 << t[3]) - 1
+    if k == "and": return min(a, t[2])
+    if k == "or": return (1 << max(a, t[2]).bit_length()) - 1
+    if k == "udiv": return a // t[2]
+    if k == "urem": return min(a, t[2] - 1)
+    return (1 << 64) - 1
+
+
+def lbound(t, lo, hi):
+    """a lower bound of the (unsigned) value of t on [lo, hi]"""
+    k = t[0]
+    if k == "x": return lo
+    if k == "c": return t[1]
+    if k == "or2": return max(lbound(t[1], lo, hi), lbound(t[2], lo, hi))
+    if k == "add2":
+        return lbound(t[1], lo, hi) + lbound(t[2], lo, hi) if ubound(t[1], lo, hi) + ubound(t[2], lo, hi) < (1 << t[3]) else 0
+    if monotone(t, lo, hi): return ev(t, lo)
+    a = lbound(t[1], lo, hi)
+    if k == "or": return max(a, t[2])
+    if k == "shr": return a >> t[2]
+    if k == "udiv": return a // t[2]
+    if k == "add": return a + t[2] if ubound(t[1], lo, hi) + t[2] < (1 << t[3]) else 0
+    if k == "shl": return (a << t[2]) if (ubound(t[1], lo, hi) << t[2]) < (1 << t[3]) else 0
+    if k == "mulc": return a * t[2] if ubound(t[1], lo, hi) * t[2] < (1 << t[3]) else 0
+    return 0
+
+
 def _nowrap(t, lo, hi):
     k = t[0]
     if k == "add": return ev(t[1], hi) + t[2] < (1 << t[3])
@@ -63,6 +105,8 @@ def norm(t, lo, hi):
     if k == "or2" or k == "add2":
         b = norm(t[2], lo, hi)
         if is_c(a) and is_c(b): return C(ev((k, a, b) + t[3:], 0))
+        if is_c(a) and a[1] == 0: return b
+        if is_c(b) and b[1] == 0: return a
         return (k, a, b) + t[3:]
     t = (k, a) + t[2:]
     if is_c(a): return C(ev(t, 0))
@@ -76,6 +120,10 @@ def norm(t, lo, hi):
     if k == "and":
         m = t[2]
         if a[0] == "and": return norm(("and", a[1], a[2] & m), lo, hi)
+        if a[0] == "or2": return norm(("or2", ("and", a[1], m), ("and", a[2], m)), lo, hi)          # a mask distributes over an or of two terms
+        if a[0] == "shl" and (len(a) < 4 or a[3] >= 64 or True):
+            if m >> a[2] == 0: return C(0)                                                           # everything the mask keeps was shifted in as zeros
+            if m & ((1 << a[2]) - 1) == 0 or True: return _shl_and(a, m, lo, hi)
         if a[0] == "or": return norm(("or", ("and", a[1], m & ~a[2]), a[2] & m), lo, hi) if (a[2] & m) else norm(("and", a[1], m), lo, hi)
         if monotone(a, lo, hi):
             full = (1 << max(1, ev(a, hi).bit_length())) - 1
@@ -92,6 +140,13 @@ def norm(t, lo, hi):
     if k in ("add", "mulc", "shl") and t[3] != 64 and monotone(a, lo, hi) and _nowrap(t, lo, hi): t = t[:3] + (64,)
     if k == "sub" and t[3] != 64 and monotone(a, lo, hi) and ev(a, lo) >= t[2]: t = t[:3] + (64,)
     return t
+
+def _shl_and(a, m, lo, hi):
+    """(A << n) & m  ==  (A & (m >> n)) << n   (the low n bits of the shifted value are zero anyway)"""
+    n = a[2]; inner = norm(("and", a[1], m >> n), lo, hi)
+    if is_c(inner): return C((inner[1] << n) & ((1 << (a[3] if len(a) > 3 else 64)) - 1))
+    return ("shl", inner, n) + a[3:]
+
 
 def show(t):
     k = t[0]
@@ -110,6 +165,21 @@ def show(t):
 
 # ---------------- interpreter ----------------
 class Unsupported(Exception): pass
+
+
+class NonIntervalClass(Unsupported):
+    """a branch whose outcome, as a function of x, is true - false - true (or the reverse) at three increasing inputs: the set of
+    inputs that take one side is not an interval, so the function's classes cannot be tabulated"""
+    def __init__(self, term, pred, c, xs):
+        Unsupported.__init__(self, "branch on %s %s %d has outcomes %s at x = %d < %d < %d: its classes are not intervals" % (show(term), pred, c, "TFT" if xs[3] else "FTF", xs[0], xs[1], xs[2]))
+        self.xs = xs[:3]
+
+
+class NotInjective(Unsupported):
+    """two different inputs (witnesses of a non-interval class) for which the function writes the same bytes and returns the same value"""
+    def __init__(self, x1, x2, ret, stores, why):
+        Unsupported.__init__(self, "inputs %d and %d produce the same result (%s) - %s" % (x1, x2, " ".join("%02x" % stores[k] for k in sorted(stores)) or ret, why))
+        self.x1 = x1; self.x2 = x2; self.ret = ret; self.stores = stores
 
 class Ptr:
     def __init__(self, base, off): self.base = base; self.off = off
@@ -203,7 +273,40 @@ class E1:
             v = t[1]
             res = {"eq": v == c, "ne": v != c, "ult": v < c, "ule": v <= c, "ugt": v > c, "uge": v >= c}[pred]
             return [(lo, hi, res)]
-        if not monotone(t, lo, hi): raise Unsupported("branch on non-monotone term %s" % show(t))
+        if not monotone(t, lo, hi):
+            # a low-bits mask of x (a value narrowed before it is compared) makes the outcome periodic: look for three inputs that show it
+            def res(x):
+                v = ev(t, x)
+                return {"eq": v == c, "ne": v != c, "ult": v < c, "ule": v <= c, "ugt": v > c, "uge": v >= c}[pred]
+            periods = set()
+            def masks(u):
+                if u[0] in ("x", "c"): return
+                if u[0] == "and" and (u[2] & (u[2] + 1)) == 0 and u[2]: periods.add(u[2] + 1)
+                if u[0] in ("shl",) and len(u) > 3 and u[3] < 64: periods.add(1 << u[3])
+                if u[0] in ("add", "sub", "mulc") and u[3] < 64: periods.add(1 << u[3])
+                masks(u[1])
+                if u[0] in ("or2", "add2"): masks(u[2])
+            masks(t)
+            pts = {lo, hi}
+            for P in periods:
+                for j in range(0, 4):
+                    for d in (0, 1, P // 2, P - 1):
+                        if lo + j * P + d <= hi: pts.add(lo + j * P + d)
+                        if c + j * P + d <= hi and c + j * P + d >= lo: pts.add(c + j * P + d)
+            pts = sorted(pts)
+            # preferably two inputs one whole period apart (what the narrowing throws away is exactly what distinguishes them)
+            for P in sorted(periods):
+                for x1 in pts:
+                    x3 = x1 + P
+                    if x3 > hi or res(x1) != res(x3): continue
+                    for x2 in (x1 + P // 2, x1 + 1, x3 - 1, x1 + P // 4):
+                        if x1 < x2 < x3 and res(x2) != res(x1): raise NonIntervalClass(t, pred, c, (x1, x2, x3, res(x1)))
+            for i1 in range(len(pts)):
+                for i2 in range(i1 + 1, len(pts)):
+                    if res(pts[i2]) == res(pts[i1]): continue
+                    for i3 in range(i2 + 1, len(pts)):
+                        if res(pts[i3]) == res(pts[i1]): raise NonIntervalClass(t, pred, c, (pts[i1], pts[i2], pts[i3], res(pts[i1])))
+            raise Unsupported("branch on non-monotone term %s" % show(t))
         def last_le(cv):      # max x in [lo,hi] with t(x) <= cv, or lo-1
             if ev(t, lo) > cv: return lo - 1
             a, b = lo, hi
@@ -286,7 +389,9 @@ class E1:
                 if op == "or": env[i.id] = ("or2", a, c2); continue
                 if op == "add": env[i.id] = ("add2", a, c2, bits); continue
                 raise Unsupported("%s of two terms" % op)
-            elif op in ("zext",): env[i.id] = V(0)
+            elif op in ("zext",):
+                t = V(0)
+                env[i.id] = C(t[1], bits) if is_c(t) else t          # a widened constant is a constant of the wider type (signed compares look at the width)
             elif op == "sext":
                 t = V(0); sb = type_bits(i.ops[0]["t"])
                 if is_c(t):
@@ -294,6 +399,10 @@ class E1:
                     if v >> (sb - 1): v -= 1 << sb
                     env[i.id] = C(v, bits)
                 elif monotone(t, path.lo, path.hi) and ev(t, path.hi) < (1 << (sb - 1)): env[i.id] = t
+                elif ubound(t, path.lo, path.hi) < (1 << (sb - 1)): env[i.id] = t        # cannot have its sign bit set
+                elif t[0] == "or" and (t[2] >> (sb - 1)) & 1:
+                    # the sign bit is set by construction (a continuation flag or-ed in): the extension fills the upper bits with ones
+                    env[i.id] = norm(("or", t, ((1 << bits) - 1) & ~((1 << sb) - 1)), path.lo, path.hi)
                 else: raise Unsupported("sext of possibly negative term")
             elif op == "trunc": env[i.id] = norm(("and", V(0), (1 << bits) - 1), path.lo, path.hi)
             elif op in ("bitcast",): env[i.id] = V(0)
@@ -428,9 +537,16 @@ class E1:
             if sa is not None and sb2 is not None:
                 res = {"slt": sa < sb2, "sle": sa <= sb2, "sgt": sa > sb2, "sge": sa >= sb2}[pred]
                 return [(path.lo, path.hi, res)]
+            # a term whose sign bit is set by construction (flag or-ed in, then sign-extended) against a non-negative constant
+            for (t, cs, term_left) in ((a, sb2, True), (b2, sa, False)):
+                if not is_c(t) and cs is not None and cs >= 0:
+                    wbits = (b2 if term_left else a)[2]
+                    if t[0] == "or" and (t[2] >> (wbits - 1)) & 1:
+                        res = pred in ("slt", "sle") if term_left else pred in ("sgt", "sge")
+                        return [(path.lo, path.hi, res)]
             for t in (a, b2):
                 if not is_c(t):
-                    if not monotone(t, path.lo, path.hi) or ev(t, path.hi) >= (1 << 63): raise Unsupported("signed compare of a possibly negative term")
+                    if ubound(t, path.lo, path.hi) >= (1 << 63): raise Unsupported("signed compare of a possibly negative term")
             neg_const = (sb2 is not None and sb2 < 0) or (sa is not None and sa < 0)
             if neg_const:
                 # term >= 0 > negative constant
@@ -438,6 +554,14 @@ class E1:
                 else: res = pred in ("slt", "sle")
                 return [(path.lo, path.hi, res)]
             pred = "u" + pred[1:]
+        if is_c(b2) and not is_c(a) and not monotone(a, path.lo, path.hi):
+            # decided by the range of the term alone (e.g. (x & 0x7f) >= 0, (x & 0x7f) < 128)
+            u = ubound(a, path.lo, path.hi); cst = b2[1]
+            if pred == "uge" and cst == 0: return [(path.lo, path.hi, True)]
+            if pred == "ult" and (cst == 0 or u < cst): return [(path.lo, path.hi, cst != 0)]
+            if pred == "ule" and u <= cst: return [(path.lo, path.hi, True)]
+            if pred == "ugt" and u <= cst: return [(path.lo, path.hi, False)]
+            if pred == "uge" and u < cst: return [(path.lo, path.hi, False)]
         if is_c(b2): return self.split(a, pred, b2[1], path)
         if is_c(a):
             flip = {"ult": "ugt", "ule": "uge", "ugt": "ult", "uge": "ule", "eq": "eq", "ne": "ne"}[pred]
@@ -459,6 +583,25 @@ class E1:
             yield from self.block(fn, fn.bmap[tru if truth else fls], b, self.renorm(env, lo, hi), args, p2)
 
 def table(mod, fname, **kw):
+    try:
+        return _table(mod, fname, **kw)
+    except NonIntervalClass as ex:
+        # evaluate the function at the two witnesses that take the same side (constant propagation on one-point intervals)
+        x1, _x2, x3 = ex.xs
+        try:
+            k1 = dict(kw); k1["in_lo"] = k1["in_hi"] = x1; r1 = _table(mod, fname, **k1)
+            k3 = dict(kw); k3["in_lo"] = k3["in_hi"] = x3; r3 = _table(mod, fname, **k3)
+        except Unsupported: raise ex
+        if len(r1) == 1 and len(r3) == 1:
+            (_, _, ret1, st1), (_, _, ret3, st3) = r1[0], r3[0]
+            cst = lambda st: {k: v[1] for k, v in st.items()} if all(is_c(v) for v in st.values()) else None
+            s1, s3 = cst(st1), cst(st3)
+            same_ret = (ret1 is None and ret3 is None) or (ret1 is not None and ret3 is not None and is_c(ret1) and is_c(ret3) and ret1[1] == ret3[1])
+            if s1 is not None and s1 == s3 and same_ret: raise NotInjective(x1, x3, ret1[1] if ret1 is not None else None, s1, str(ex))
+        raise ex
+
+
+def _table(mod, fname, **kw):
     e = E1(mod, **kw)
     return e.run(fname)
 
